@@ -232,6 +232,26 @@ func (t *SessionTracker) Idle(w *UpdateWriter, stop <-chan struct{}) error {
 	}
 }
 
+// NumMessages returns the number of messages in the mailbox from the client
+// point-of-view, that is without taking into account the updates which are
+// still pending for this session.
+func (t *SessionTracker) NumMessages() uint32 {
+	t.mutex.Lock()
+	defer t.mutex.Unlock()
+
+	n := t.mailbox.numMessages
+	for i := len(t.queue) - 1; i >= 0; i-- {
+		update := t.queue[i]
+		switch {
+		case update.expunge != 0:
+			n++
+		case update.numMessages != 0:
+			n = update.prevNumMessages
+		}
+	}
+	return n
+}
+
 // DecodeSeqNum converts a message sequence number from the client view to the
 // server view.
 //
